@@ -565,6 +565,52 @@ def optype_scenario(wcls):
   return scenario
 
 
+def pe_scenario(kw):
+  """run_qtools.QTools.pe: the energy report is qenergy.energy_estimate of THIS object's model and layer map under exactly
+  the placement options the caller gave (weights / activations placement are not interchangeable).  energy_estimate is
+  replaced by a spy (its own contract is the energy_estimate cases)."""
+  def scenario(ip):
+    s = Scen()
+    cls = ip.find("qkeras/qtools/run_qtools.py::QTools")
+    model, lmap = Obj(ExtClass("Model"), {}), {"layer_data_type_map": {}}
+    qt = Obj(cls, {"_model": model, "_layer_map": lmap})
+    msz = z3.Int("min_sram_size")
+    s.vars["min_sram_size"] = msz
+    ip.assume(msz >= 0)
+    seen = []
+    report = {"total_cost": 7}
+
+    def spy(ip_, fv, a, k):
+      seen.append((list(a), dict(k)))
+      return report
+    ip.overrides["qkeras.qtools.qenergy.qenergy::energy_estimate"] = spy
+    args = dict(kw)
+    if "min_sram_size" in args:
+      args["min_sram_size"] = SNum(msz, "int")
+    r = run_call(ip, ip.getattr(qt, "pe"), [], args)
+    s.claim("no_raise", r[0] == "return")
+    if r[0] != "return":
+      s.info["raised"] = str(r[1])
+      return s
+    s.claim("returns_the_estimate", r[1] is report and len(seen) == 1)
+    if len(seen) != 1:
+      return s
+    a, k = seen[0]
+    names = ["model", "layer_map", "weights_on_memory", "activations_on_memory", "min_sram_size", "rd_wr_on_io"]
+    got = dict(zip(names, a))
+    got.update(k)
+    want = {"weights_on_memory": "dram", "activations_on_memory": "dram", "min_sram_size": 0, "rd_wr_on_io": True}
+    want.update(kw)
+    ok = got.get("model") is model and got.get("layer_map") is lmap
+    for n in ("weights_on_memory", "activations_on_memory", "rd_wr_on_io"):
+      ok = ok and got.get(n) == want[n] and type(got.get(n)) is type(want[n])
+    s.claim("options_forwarded", ok)
+    g = got.get("min_sram_size")
+    s.claim("min_sram_size_forwarded", (Q.num_value(g) == z3.ToReal(msz)) if "min_sram_size" in kw else (g == 0))
+    return s
+  return scenario
+
+
 def bounds(vars_):
   return [v <= 6 for k, v in vars_.items()]
 
@@ -605,6 +651,11 @@ def cases(tier):
   for k in ("dense_bias", "dense_nobias", "bn_all", "bn_partial", "other"):
     out.append(Case(PROP, QE + "parameter_read_energy", k, param_scenario(k), replay_kind=None,
                     assumptions=ASSUME + ["memory_read_energy replaced by its contract inside parameter_read_energy"]))
+  for i, kw in enumerate(({}, {"weights_on_memory": "sram", "activations_on_memory": "dram", "min_sram_size": 1},
+                          {"weights_on_memory": "fixed", "activations_on_memory": "sram", "rd_wr_on_io": False},
+                          {"weights_on_memory": "dram", "activations_on_memory": "sram", "min_sram_size": 1, "rd_wr_on_io": False})):
+    out.append(Case(PROP, "qkeras/qtools/run_qtools.py::QTools.pe", "options%d" % i, pe_scenario(kw), replay_kind=None,
+                    assumptions=ASSUME + ["energy_estimate replaced by a spy inside QTools.pe"]))
   for w in ("sum", "profile"):
     out.append(Case(PROP, "qkeras/qtools/run_qtools.py::QTools.extract_energy_" + w, "three_layers", sum_scenario(w),
                     bounds=bounds, replay_kind=None, assumptions=ASSUME))
